@@ -23,6 +23,11 @@ def run(ctx):
     ctx.guarded('R03a', FZ, lambda: r03a(ctx))
     ctx.guarded('R03b', FNH, lambda: r03b(ctx))
     ctx.guarded('R03c', 'pointer', lambda: r03c(ctx))
+    ctx.rule('R03d', 'chunk boundaries cannot depend on the call partition for structural reasons: resets on every cut and open-chunk-relative bounds (= C04-R04a, R04c)')
+    from . import rules_c04 as c04
+    from .rules_c11 import _Alias
+    ctx.guarded('R03d', c04.NEXT, lambda: c04.r04(_Alias(_Alias(ctx, 'R04a', 'R03d'), 'R04b', 'R03d')))
+    ctx.guarded('R03d', c04.NEXT, lambda: c04.r04c(_Alias(ctx, 'R04c', 'R03d')))
 
 
 def r03a(ctx):
